@@ -2,8 +2,9 @@ import PRV.Model.Sched
 /-
 A finer-grained model of `allocator/scheduler.go` for histories in which `SetDest` takes time: the
 scheduler goroutine is blocked inside the proxy's `SetDest` until the proxy answers (`release`), and
-tasks are added, removed and credited meanwhile.  `Model/Sched.lean` is the special case in which every
-`SetDest` returns before the next event (`fast_refines`, Props/C07).
+tasks are added, removed and credited meanwhile.  `Model/Sched.lean` describes the histories in which every
+`SetDest` returns before the next event; that the two agree there is not proved in Lean (DESIGN.md §8) — each is tied to
+the real scheduler by its own correspondence run (harness/allocator/verif_c07_test.go: fast and slow cases).
 
 The goroutine's position is explicit: parked on `newTaskSignal`, inside `SetDest` (towards the primary
 destination or towards a task's), or serving the task at the head of the queue.  `newTaskSignal` is a
